@@ -77,7 +77,7 @@ CLAIMED = {
         "linear interpolation map them to the SAME body (…_ni); focus to related bodies and the same header dimensions (focus_ni); the two-point and the distribution normaliser compute the same statistics and related results "
         "(Props/C09Norm: normalize_ni, normalizeDistribution_ni); hence for EVERY program over these eleven operations the two runs fail together or end with the same visible "
         "result (run_ni, runN_ni, program_noninterference); the feature representations — distance, X/Y angle, inner angle, point-line distance, the points block and the whole assembled representation — return the same values for any "
-        "two fillings of the missing points (Props/C09Repr: rep2_ni, rep3_ni, pointsRepRows_ni, forward_ni). augmentation is the matrix product with a matrix that depends on the random draws only, so matmul_ni (any matrix) covers it; write → read gives the same visible result for two bodies that differ under the mask only (Props/C09Ser: serialise_ni). Partial: the 3-D normaliser (known finding K4) and the spline interpolants are not in the Lean model — they are decided on the implementation by the "
+        "two fillings of the missing points (Props/C09Repr: rep2_ni, rep3_ni, pointsRepRows_ni, forward_ni). augmentation is the matrix product with a matrix that depends on the random draws only, so matmul_ni (any matrix) covers it; write → read gives the same visible result for two bodies that differ under the mask only (Props/C09Ser: serialise_ni). interpolation of every kind is covered with the interpolant as a parameter (interpolateWith_ni, also an instruction of the program theorem). Partial: the 3-D normaliser (known finding K4) is not in the Lean instruction set — they are decided on the implementation by the "
         "two-run check (two fillings of the missing slots incl. NaN / ±inf / ±3e38, same operation sequence, visible results compared exactly after every step, NumPy / torch / tensorflow). Known finding K4 (3-D normaliser).",
    technique="Lean 4 proof (relational two-run invariant over nested arrays, induction over programs) + differential two-run execution on three backends and model correspondence",
    design="§5 C09"),
@@ -103,7 +103,7 @@ CLAIMED = {
         "coordinates (F, P, header points, D), confidences (F, P, points), missing flags = the ones derived from confidence 0 in all D coordinates (wf_pointwise). step_inv: every operation whose stated precondition holds maps a "
         "well-formed pose to a well-formed pose; run_inv: so does every sequence, of any length; fits_of_inv / serialisable: a well-formed NumPy pose has the shape its header describes, so C01's write → read theorem applies. "
         "Supporting lemmas: bbox_inv (the box mask is the derived mask because a consistent point is missing in all coordinates at once), interpolate_inv, matmul_inv, getComponents_shape (index list matches the new header, "
-        "stays inside the old one, formats kept). normalize, normalize_distribution and unnormalize_distribution are such transforms whenever they return (normalize_is_transform, normalizeDistribution_is_transform, unnormalizeDistribution_is_transform), hence keep a pose well-formed (normalize_wf, …). Partial: the dropouts' draws and torch / tensorflow bodies are decided on the implementation: "
+        "stays inside the old one, formats kept). normalize, normalize_distribution and unnormalize_distribution are such transforms whenever they return (normalize_is_transform, normalizeDistribution_is_transform, unnormalizeDistribution_is_transform), hence keep a pose well-formed (normalize_wf, …). interpolation of every kind (interpolant = parameter that keeps the row width) keeps a pose well-formed (interpolate_any_kind_wf). Partial: the dropouts' draws and torch / tensorflow bodies are decided on the implementation: "
         "random precondition-respecting operation sequences with the invariant evaluated after every step on all three backends and write → read at the end.",
    technique="Lean 4 proof (invariant by induction over operation sequences on nested arrays; refinement to C01 for serialisation) + randomised sequence execution with invariant checks and model correspondence",
    design="§5 C12"),
@@ -122,8 +122,10 @@ CLAIMED = {
  "C14": dict(
    text="Theorems (Props/C14.lean), the model's linear interpolation instantiated with an arbitrary linearly ordered field: the resampled clip has the requested number of frames — round(F * new_fps / fps), a binary64 rounding evaluated by the caller and checked on the implementation — at the new rate (interp_frames_fps) whose instants run from 0 to 1 "
         "(linspace_ends); a track is missing at every new instant outside [first observation, last observation] (track_zero_outside_window, before_window); inside, the value equals the observation at an observed instant "
-        "(linear_identity_at_observations), lies between the two neighbouring observations (linear_within_neighbours) and reproduces an affine track exactly (linear_affine_exact). Partial: float rounding and scipy's spline kinds "
-        "(quadratic, cubic) are outside the theorems; for those the implementation is checked against the clauses that do not depend on the kind (frame count, rate, support window, identity at the same rate, affine exactness up to 1e-6). "
+        "(linear_identity_at_observations), lies between the two neighbouring observations (linear_within_neighbours) and reproduces an affine track exactly (linear_affine_exact). For EVERY interpolation kind — the interpolant (scipy's interp1d on the observed samples, the kind chosen by the code from their number) is an uninterpreted parameter of the model (interpolateBodyWith) — "
+        "frame count and rate (interp_frames_fps_any_kind), missing outside the track's own window and for never observed points (track_zero_outside_window_any_kind), and, for an interpolant that reproduces its samples, the identity at every new instant that "
+        "coincides with an observed one (track_identity_at_observations). Partial: float rounding; that scipy's quadratic / cubic interpolants reproduce their samples and affine data is assumed of scipy and checked on the implementation "
+        "(identity at the same rate, affine exactness up to 1e-6). "
         "Interpolation is run on NumPy poses with dyadic data and per-point observation windows, and the linear kind compared with the model at 1e-9.",
    technique="Lean 4 proof over an ordered field (Mathlib linarith / field_simp on the model's lerp) + differential correspondence and clause oracle on the implementation",
    design="§5 C14"),
